@@ -178,6 +178,26 @@ func (g *typeGen) structType(depth int) reflect.Type {
 		case 3:
 			jsonName = fmt.Sprintf("Name%d", i)
 		}
+		// Avro names are case-sensitive: now and then a field is named like its predecessor in another case
+		if i > 0 && g.rng.Intn(8) == 0 {
+			prev := fields[i-1]
+			pn, _, _ := strings.Cut(prev.Tag.Get("json"), ",")
+			if pn == "" {
+				pn = prev.Name
+			}
+			taken := false
+			for _, f := range fields {
+				fn, _, _ := strings.Cut(f.Tag.Get("json"), ",")
+				if fn == "" {
+					fn = f.Name
+				}
+				taken = taken || fn == flipCase(pn)
+			}
+			if v := flipCase(pn); !taken && prev.PkgPath == "" && pn != "-" && prev.Tag.Get("bq") != "-" && v != pn {
+				jsonName = v
+				g.tag("case-variant-names")
+			}
+		}
 		canOmit := true
 		if ft.Kind() == reflect.String && !g.f.OmitString {
 			canOmit = false
@@ -210,6 +230,13 @@ func (g *typeGen) structType(depth int) reflect.Type {
 		fields = append(fields, sf)
 	}
 	return reflect.StructOf(fields)
+}
+
+func flipCase(s string) string {
+	if u := strings.ToUpper(s); u != s {
+		return u
+	}
+	return strings.ToLower(s)
 }
 
 // genType returns a struct type and the feature tags it uses.
